@@ -5,6 +5,7 @@ Property theorems only; helper lemmas live in `RtcModel/Lemmas/Sctp{Multi,Open}.
 -/
 import RtcModel.Lemmas.SctpMulti
 import RtcModel.Lemmas.SctpOpen
+import RtcModel.Lemmas.SctpPr
 
 namespace RtcModel.Theorems.C12
 open RtcModel.Sctp RtcModel.Generated
@@ -121,6 +122,44 @@ example :
     let g : DChunk := { tsn := 13, flags := 7, sid := 2, ssn := 0, ppid := 53, data := [8, 9] }
     ((handleData (handleData (handleForwardTsn (handleData s0 f0) 11 [(2, 0)]) f2) g).pl.chans.map (·.events))
       = [[.msg [8, 9]]] := by decide
+
+/-- **pr_no_fabrication** (partially reliable, unordered channel; payload layer): take any
+workload, fragment it as `send_data_raw` does, and let *any* set of the resulting chunks be skipped
+(abandoned and passed over by FORWARD-TSN — each skip forgets the reassembly buffers, as
+`handle_forward_tsn` does) while the others are processed in TSN order. Then the channel's new
+events are exactly the messages none of whose fragments was skipped: a sublist of the submitted
+messages — nothing merged, split, truncated, fabricated, duplicated or reordered. -/
+theorem pr_no_fabrication (keep : Nat → Bool) (sid : UInt16) (ppid : UInt32) (hp : ppid.toNat ≠ dcPpidDcep)
+    (msgs : List Bytes) (cs : List TxChan) (tc : TxChan) (pl : Pl) (dc : Chan) (t : UInt32) (i : Nat)
+    (hf : findTx cs sid = some tc) (ho : tc.ordered = false) (hmp : 0 < tc.maxPayload)
+    (hfind : findChan pl.chans sid = some dc) (hst : dc.state = 1) :
+    ∃ dc' delivered, findChan (procKeep keep i pl (assignTsn t (sendAll cs sid ppid msgs).2)).chans sid = some dc' ∧
+      dc'.events = dc.events ++ delivered.map ChanEv.msg ∧ List.Sublist delivered msgs ∧
+      delivered = deliveredSpec (min tc.maxPayload sctpMaxPayload) keep i msgs := by
+  obtain ⟨dc', h1, h2⟩ := pr_workload keep sid ppid hp msgs cs tc pl dc t i hf ho hmp hfind hst
+  exact ⟨dc', _, h1, h2, deliveredSpec_sublist _ keep msgs i, rfl⟩
+
+/-- the skip step of `procKeep` is what an effective FORWARD-TSN does to the payload state when no
+ordered stream is involved -/
+theorem forward_tsn_is_reset (s : Rx) (n : UInt32) (h : n > s.cum) (hs : s.pl.streams = []) (ps : List (UInt16 × UInt16)) :
+    (handleForwardTsn s n ps).pl = resetPl s.pl := by
+  simp only [handleForwardTsn, h, if_true, resetPl]
+  induction ps with
+  | nil => rfl
+  | cons p rest ih =>
+    simp only [List.foldl_cons]
+    have : fwdStream { s.pl with chans := s.pl.chans.map (fun c => { c with reasm := [] }) } p =
+        { s.pl with chans := s.pl.chans.map (fun c => { c with reasm := [] }) } := by
+      simp [fwdStream, hs]
+    rw [this]; exact ih
+
+/-- non-vacuity: three messages, the middle fragment of the first one and the whole second one
+skipped — only the third is delivered -/
+example :
+    let cs : List TxChan := [{ id := 2, ordered := false, maxPayload := 1, maxRetransmits := some 0 }]
+    let pl : Pl := { chans := [{ id := 2, ordered := false, state := 1 }] }
+    (procKeep (fun i => i != 1 && i != 3) 0 pl (assignTsn 10 (sendAll cs 2 53 [[1, 2, 3], [4], [5, 6]]).2)).chans.map (·.events)
+      = [[.msg [5, 6]]] := by decide
 
 /-- **forward_tsn_wrap_ignored — witness of failure.** `handle_forward_tsn` compares
 `new_cumulative_tsn > old` numerically: a FORWARD-TSN that moves the cumulative point across the
